@@ -32,6 +32,8 @@ THEOREMS = {n: "Props.C13" for n in [
     "C13_l1d_restored_losses", "C13_l1d_restored_example"]}
 
 SIG_F7 = "C13:F7 Learner2D unusable on numpy>=2.x/scipy>=1.15"
+SIG_CYCLE_TENTATIVE = ("C13:BalancingLearner:pickle strategy='cycle' after ask(tell_pending=False) resumes at the wrong child "
+                       "(_cycle_position not rolled back by the tentative ask)")
 SIG_CYCLE = "C13:BalancingLearner:pickle strategy='cycle' restarts at the first child (position in the cycle is not part of the pickled state)"
 MECHS = ["save_gz", "save_raw", "pickle", "cloudpickle", "copy_from"]
 LOSS_RTOL = 1e-12
@@ -137,7 +139,9 @@ def gen_cfg(rng, kind, quick):
         return {"kind": kind, "a": a, "atol": rng.choice([0.01, 0.1]), "rtol": rng.choice([0.01, 1.0]),
                 "min_npoints": rng.choice([2, 5]), "n": rng.randint(2, 30)}
     if kind == "avg1d":
-        return {"kind": kind, "a": a, "bounds": (-1.0, 1.0), "n": rng.randint(10, 150 if quick else 600)}
+        return {"kind": kind, "a": a, "bounds": (-1.0, 1.0), "n": rng.randint(10, 150 if quick else 600),
+                # small min_samples: locations with exactly one, two, three samples exist when the snapshot is taken
+                "min_samples": rng.choice([1, 2, 2, 3, 5, 50]), "delta": rng.choice([0.2, 0.5])}
     if kind == "seq":
         return {"kind": kind, "a": a, "elems": rng.choice(["int", "list"]), "ntotal": rng.choice([3, 5, 10, 25]),
                 "n": rng.randint(1, 25)}
@@ -170,7 +174,8 @@ def make_base(cfg, a=None, extra=False):
         return adaptive.AverageLearner(wrap(functools.partial(g_avg, a=a)), atol=cfg["atol"], rtol=cfg["rtol"],
                                        min_npoints=cfg["min_npoints"])
     if kind == "avg1d":
-        l = adaptive.AverageLearner1D(wrap(functools.partial(g_avg1d, a=a)), tuple(cfg["bounds"]))
+        l = adaptive.AverageLearner1D(wrap(functools.partial(g_avg1d, a=a)), tuple(cfg["bounds"]),
+                                      delta=cfg.get("delta", 0.2), min_samples=cfg.get("min_samples", 50))
         l._recompute_losses_factor = 1
         return l
     if kind == "seq":
@@ -231,36 +236,87 @@ def ask_any(l, cfg, rng, k):
     return l.ask(k)
 
 
-def drive(l, cfg, rng):
-    """Ask-driven history with out-of-order delivery that ends with nothing pending.
-    Returns the list of (point, value) in delivery order."""
+def ask_tentative(l, cfg, rng, k):
+    """A non-committing ask (the answer is discarded)."""
+    try:
+        if cfg.get("wrap") == "balancing" and cfg["kind"] == "int":
+            l.learners[rng.randrange(len(l.learners))].ask(k, tell_pending=False)
+        else:
+            l.ask(k, tell_pending=False)
+    except RuntimeError as e:
+        if "No way to improve" not in str(e):
+            raise
+
+
+def drive(l, cfg, rng, info=None):
+    """Ask-driven history with out-of-order delivery that ends with nothing pending: committing asks of 1..5
+    points, non-committing asks ask(n, tell_pending=False) in between, and a closing phase: one more committing
+    BATCH ask (n > 1) whose points are all delivered, then possibly one or two non-committing asks as the very
+    last operations before the snapshot.  Returns the list of (point, value) in delivery order."""
+    info = info if info is not None else {}
+    info.update({"tentative": 0, "trailing_tentative": 0, "last_commit_n": 0})
     f = l.function
     wait, hist = [], []
     target = cfg["n"]
     stuck = 0
-    while progress(l) < target and stuck < 3:
-        try:
-            pts, _ = ask_any(l, cfg, rng, rng.choice([1, 1, 2, 3, 5]))
-        except RuntimeError as e:      # IntegratorLearner: "No way to improve the integral estimate"
-            if "No way to improve" in str(e):
-                break
-            raise
-        if not pts:
-            stuck += 1
-        wait += list(pts)
-        if not wait:
-            continue
-        rng.shuffle(wait)
-        for _ in range(rng.randint(0 if len(wait) > 1 else 1, len(wait))):
+
+    def deliver(k):
+        for _ in range(k):
             p = wait.pop()
             y = f(p)
             l.tell(p, y)
             hist.append((p, y))
-    while wait:
-        p = wait.pop()
-        y = f(p)
-        l.tell(p, y)
-        hist.append((p, y))
+
+    def commit(k):
+        try:
+            pts, _ = ask_any(l, cfg, rng, k)
+        except RuntimeError as e:      # IntegratorLearner: "No way to improve the integral estimate"
+            if "No way to improve" in str(e):
+                return None
+            raise
+        if pts:
+            info["last_commit_n"] = len(pts)
+        return list(pts)
+
+    while progress(l) < target and stuck < 3:
+        if rng.random() < 0.2 and progress(l) > 0:
+            ask_tentative(l, cfg, rng, rng.choice([1, 2, 3]))
+            info["tentative"] += 1
+        pts = commit(rng.choice([1, 1, 2, 3, 5]))
+        if pts is None:
+            break
+        if not pts:
+            stuck += 1
+        wait += pts
+        if not wait:
+            continue
+        rng.shuffle(wait)
+        deliver(rng.randint(0 if len(wait) > 1 else 1, len(wait)))
+    deliver(len(wait))
+    # closing phase
+    if rng.random() < 0.7:
+        pts = commit(rng.choice([2, 3, 4, 5]))
+        if pts:
+            wait += pts
+            rng.shuffle(wait)
+            deliver(len(wait))
+    if cfg["kind"] == "avg1d" and rng.random() < 0.5:
+        # two unsolicited samples at a fresh location: the snapshot is taken while a location has exactly two
+        # samples (with the default min_samples = 50 an ask-driven run is almost never in that state)
+        x = round(rng.uniform(-0.95, 0.95), 3)
+        for sd in (0, 1):
+            p = (sd, x)
+            if cfg.get("wrap") == "balancing":
+                p = (rng.randrange(len(l.learners)) if sd == 0 else p_child, p)
+                p_child = p[0]
+            y = f(p)
+            l.tell(p, y)
+            hist.append((p, y))
+    if rng.random() < 0.6 and progress(l) > 0:
+        for _ in range(rng.choice([1, 1, 2])):
+            ask_tentative(l, cfg, rng, rng.choice([1, 2, 3]))
+            info["tentative"] += 1
+            info["trailing_tentative"] += 1
     return hist
 
 
@@ -440,7 +496,8 @@ def check_case(chk, cfg, seed, stats, workdir, tag):
     """One history, all mechanisms.  Returns True if the history was usable."""
     l, l2 = make(cfg), make(cfg)
     try:
-        hist = drive(l, cfg, random.Random(seed))
+        info = {}
+        hist = drive(l, cfg, random.Random(seed), info)
         # copy_from may hand the original's containers to the copy (IntegratorLearner, AverageLearner,
         # Learner2D return them from _get_data as they are); an identical twin of the original, built by
         # replaying the same history, keeps "what the copy suggests" apart from "what happens to two
@@ -457,6 +514,13 @@ def check_case(chk, cfg, seed, stats, workdir, tag):
         return False
     name = name_of(cfg)
     replay = {"cfg": cfg, "seed": seed}
+    if cfg["kind"] == "avg1d":
+        kk = l.learners if cfg.get("wrap") == "balancing" else [base_of(l, cfg)]
+        stats["avg1d_histories_with_a_two_sample_location"] = stats.get("avg1d_histories_with_a_two_sample_location", 0) + \
+            any(len(sm) == 2 for k in kk for sm in k._data_samples.values())
+    stats["tentative_asks"] = stats.get("tentative_asks", 0) + info["tentative"]
+    stats["histories_ending_with_tentative_ask"] = stats.get("histories_ending_with_tentative_ask", 0) + (info["trailing_tentative"] > 0)
+    stats["histories_last_commit_batch"] = stats.get("histories_last_commit_batch", 0) + (info["last_commit_n"] > 1)
     twin_ok = same_val(data_of(l, cfg), data_of(l2, cfg))
     stats["twin_not_identical"] += not twin_ok
     copies, origin = {}, {}
@@ -561,11 +625,18 @@ def check_case(chk, cfg, seed, stats, workdir, tag):
                 (close_val(x[1], y[1], 1e-6) if cfg["kind"] != "l2d" and _numeric(x[1]) and _numeric(y[1]) else True)))
                 for x, y in pairs)
         if not ok and cfg.get("strategy") == "cycle" and cfg.get("wrap") == "balancing" and a0 and a1 \
-                and [p[0] for p in a1[0]] == [i % len(l.learners) for i in range(len(a1[0]))] \
-                and [p[0] for p in a0[0]] != [p[0] for p in a1[0]]:
-            chk.fail(SIG_CYCLE, f"{name} {cfg} after {len(hist)} results: {mech}: the original continues with children "
-                                f"{[p[0] for p in a0[0]]}, the restored copy with {[p[0] for p in a1[0]]}", dict(replay, mech=mech))
-            continue
+                and not isinstance(a0, list) and [p[0] for p in a0[0]] != [p[0] for p in a1[0]]:
+            kids_o, kids_c = [p[0] for p in a0[0]], [p[0] for p in a1[0]]
+            if mech in ("pickle", "cloudpickle") and info["trailing_tentative"]:
+                chk.fail(SIG_CYCLE_TENTATIVE,
+                         f"{name} {cfg} after {len(hist)} results, the last {info['trailing_tentative']} operation(s) before "
+                         f"the snapshot being ask(n, tell_pending=False): {mech}: the original continues with children "
+                         f"{kids_o}, the restored copy with {kids_c}", dict(replay, mech=mech))
+                continue
+            if kids_c == [i % len(l.learners) for i in range(len(kids_c))]:
+                chk.fail(SIG_CYCLE, f"{name} {cfg} after {len(hist)} results: {mech}: the original continues with children "
+                                    f"{kids_o}, the restored copy with {kids_c}", dict(replay, mech=mech))
+                continue
         if not ok:
             chk.fail(f"C13:{name}:{mech} next suggestions differ",
                      f"{name} {cfg} after {len(hist)} results: {mech}: ask(10) = {_short(a1)} vs original {_short(a0)}", dict(replay, mech=mech))
@@ -799,7 +870,7 @@ def run(chk: Check) -> int:
         chk.note_case((cfg, seed), usable and cfg["n"] >= 5)
         if usable and i % 37 == 0:
             chk.sample({"learner": nm, "cfg": {k: v for k, v in cfg.items() if k != "kind"}, "mechanisms": MECHS})
-        if sum(1 for f in chk.failures if f["signature"] not in (SIG_F7, SIG_CYCLE)) > 40:
+        if sum(1 for f in chk.failures if f["signature"] not in (SIG_F7, SIG_CYCLE, SIG_CYCLE_TENTATIVE)) > 40:
             break
     # continued run of pickled Learner1D copies (and wrappers around Learner1D), default factor 2
     for wrap, count in ((None, 40 if chk.quick else 400), ("balancing", 10 if chk.quick else 80), ("datasaver", 10 if chk.quick else 80)):
@@ -831,7 +902,9 @@ def run(chk: Check) -> int:
         rule="for each learner type that runs here (Learner1D scalar/vector with 5 shipped losses and factor 1 or 2, LearnerND 2D/3D "
              "scalar/vector, AverageLearner, AverageLearner1D, SequenceLearner, IntegratorLearner) and for BalancingLearner "
              "(1-3 children, 4 strategies) and DataSaver around each: an ask-driven history with out-of-order delivery that ends "
-             "with nothing pending, then save/load gzip and raw into new(), pickle, cloudpickle, new().copy_from(); data compared "
+             "with nothing pending -- committing asks of 1..5 points, non-committing asks ask(n, tell_pending=False) in between, a "
+             "closing committing batch ask (n > 1) fully delivered and, in ~40 % of the histories, one or two non-committing asks "
+             "as the last operations before the snapshot (counted) --, then save/load gzip and raw into new(), pickle, cloudpickle, new().copy_from(); data compared "
              "exactly (arrays elementwise, extra_data, per-child data), loss() exactly for pickles and to 1e-12 for file/copy_from "
              "where the state is a function of the data, next ten suggestions exactly for pickles / to 1e-10 otherwise "
              "(AverageLearner1D exempt); continued run: Learner1D with the default factor 2 (and BalancingLearner / DataSaver "
